@@ -27,6 +27,10 @@ struct Shared {
   out: Vec<u8>,
   calls: Vec<Value>,
   closed: bool,
+  // "staging" transport (what userspace TLS is): accepted bytes sit in a session buffer until the writer is flushed
+  staging: bool,
+  staged: Vec<u8>,
+  flushes: usize,
 }
 
 struct OStream(Arc<Mutex<Shared>>);
@@ -75,7 +79,11 @@ impl AsyncWrite for OStream {
         break;
       }
       let take = std::cmp::min(left, b.len());
-      s.out.extend_from_slice(&b[..take]);
+      if s.staging {
+        s.staged.extend_from_slice(&b[..take]);
+      } else {
+        s.out.extend_from_slice(&b[..take]);
+      }
       left -= take;
     }
     s.calls.push(json!({"lens": bufs.iter().map(|b| b.len()).collect::<Vec<_>>(), "ret": n}));
@@ -83,6 +91,10 @@ impl AsyncWrite for OStream {
   }
 
   fn poll_flush(self: Pin<&mut Self>, _cx: &mut Context<'_>) -> Poll<std::io::Result<()>> {
+    let mut s = self.0.lock().unwrap();
+    s.flushes += 1;
+    let st = std::mem::take(&mut s.staged);
+    s.out.extend_from_slice(&st);
     Poll::Ready(Ok(()))
   }
 
@@ -157,11 +169,14 @@ fn run_one(c: &Value) -> Value {
   let shared = Arc::new(Mutex::new(Shared {
     trigger: b"PING id=1\n".to_vec(),
     oracle: c["oracle"].as_array().cloned().unwrap_or_default(),
+    staging: c.get("staging").and_then(|v| v.as_bool()).unwrap_or(false),
     ..Default::default()
   }));
   let rt = tokio::runtime::Builder::new_current_thread().enable_all().start_paused(true).build().unwrap();
   let local = tokio::task::LocalSet::new();
   let sh2 = shared.clone();
+  let out_idle: Arc<Mutex<Vec<u8>>> = Arc::new(Mutex::new(Vec::new()));
+  let out_idle2 = out_idle.clone();
   let n_items = items.len();
   let panicked = local.block_on(&rt, async move {
     let mng: ConnManager<C2sService> = ConnManager::new(cfg);
@@ -172,6 +187,8 @@ fn run_one(c: &Value) -> Value {
     });
     // let the writer drain, then end the stream
     tokio::time::sleep(Duration::from_millis(200)).await;
+    let idle = sh2.lock().unwrap().out.clone();
+    *out_idle2.lock().unwrap() = idle;
     {
       let mut s = sh2.lock().unwrap();
       s.eof = true;
@@ -186,7 +203,8 @@ fn run_one(c: &Value) -> Value {
     }
   });
   let s = shared.lock().unwrap();
-  json!({"out": hex(&s.out), "calls": s.calls, "panic": panicked, "closed": s.closed})
+  // "out_idle": what had reached the peer while the connection was open and idle (everything queued must be there)
+  json!({"out": hex(&s.out), "out_idle": hex(&out_idle.lock().unwrap()), "flushes": s.flushes, "calls": s.calls, "panic": panicked, "closed": s.closed})
 }
 
 pub fn run(cases: &Value) -> Value {
